@@ -632,8 +632,8 @@ func (d *Device) DI(ctx context.Context, l *Link) error {
 		return err
 	}
 	kt, bits := d.Cfg.KeyType()
-	if bits != 0 {
-		l.Svc.MfgBits = bits
+	if bits != 0 && l.Svc.MfgBits != bits {
+		l.Svc.MfgBits = bits // (concurrent fleets configure the size up front, so this never writes there)
 	}
 	h256, h384 := d.Hmacs()
 	cred, err := fdo.DI(ctx, l.Transport(), custom.DeviceMfgInfo{KeyType: kt, KeyEncoding: d.Cfg.KeyEncoding(), SerialNumber: d.Serial, DeviceInfo: d.Info,
